@@ -404,6 +404,25 @@ def fromTree (c : Codec) (t : Tree) : R Ms :=
   | .error e => .error e
   | .ok m => if Ms.all c.gv m then .ok m else .error .validity
 
+/-! ## numeric arguments: `parse_num` followed by the range check of the position -/
+
+/-- where a number occurs in the text of a miniscript / policy -/
+inductive NumPos
+  | lock            -- `after(N)` / `older(N)`: `AbsLockTime` / `RelLockTime`, both 1 ..= 0x7fff_ffff
+  | threshK (n : Nat) (lo hi : Nat)   -- `k` of a threshold with `n` children; `lo ≤ k ≤ hi` (semantic: 2 ≤ k ≤ n-1)
+  | weight          -- `W@` of a concrete `or`: `parse_num_nonzero`
+deriving DecidableEq, Repr
+
+/-- the value a numeric argument denotes (`none`: the text must be rejected) -/
+def numArg (pos : NumPos) (s : List Char) : Option Nat :=
+  match parseNum s with
+  | .error _ => none
+  | .ok v =>
+    match pos with
+    | .lock => if 1 ≤ v ∧ v ≤ 2147483647 then some v else none
+    | .threshK _ lo hi => if lo ≤ v ∧ v ≤ hi then some v else none
+    | .weight => if 1 ≤ v then some v else none
+
 /-! ## the decimal codec used on the wire (`pk(3)`, `sha256(0)`, `expr_raw_pkh(1)`) -/
 
 def readDec (s : List Char) : Option Nat :=
